@@ -32,6 +32,15 @@ pub(crate) struct Thread {
     /// Number of times the thread yielded
     pub yield_count: usize,
 
+    /// An `unpark` that no `park` has consumed yet. This is kept apart from
+    /// `state` so that blocking on a lock, a join, ... between the `unpark`
+    /// and the `park` does not lose it.
+    unpark_token: bool,
+
+    /// The thread is blocked in `park`, as opposed to blocked on a lock, a
+    /// join, ...; only then does `unpark` wake it.
+    parked: bool,
+
     locals: LocalMap,
 
     /// `tracing` span used to associate diagnostics with the current thread.
@@ -75,7 +84,7 @@ impl Id {
 
 #[derive(Debug, Clone, Copy)]
 pub(crate) enum State {
-    Runnable { unparked: bool },
+    Runnable,
     Blocked(#[allow(dead_code)] Location),
     Yield,
     Terminated,
@@ -95,7 +104,7 @@ impl Thread {
         Thread {
             id,
             span: tracing::info_span!(parent: parent_span.id(), "thread", id = id.id),
-            state: State::Runnable { unparked: false },
+            state: State::Runnable,
             critical: false,
             operation: None,
             causality: VersionVec::new(),
@@ -103,16 +112,30 @@ impl Thread {
             dpor_vv: VersionVec::new(),
             last_yield: None,
             yield_count: 0,
+            unpark_token: false,
+            parked: false,
             locals: Vec::new(),
         }
     }
 
     pub(crate) fn is_runnable(&self) -> bool {
-        matches!(self.state, State::Runnable { .. })
+        matches!(self.state, State::Runnable)
     }
 
     pub(crate) fn set_runnable(&mut self) {
-        self.state = State::Runnable { unparked: false };
+        self.state = State::Runnable;
+        self.parked = false;
+    }
+
+    /// Blocks the thread in `park`.
+    pub(crate) fn set_parked(&mut self, location: Location) {
+        self.state = State::Blocked(location);
+        self.parked = true;
+    }
+
+    /// Consumes a stored `unpark`, if there is one.
+    pub(crate) fn take_unpark_token(&mut self) -> bool {
+        std::mem::replace(&mut self.unpark_token, false)
     }
 
     pub(crate) fn set_blocked(&mut self, location: Location) {
@@ -157,13 +180,14 @@ impl Thread {
         self.set_unparked();
     }
 
-    /// Unpark a thread's state. If it is already runnable, store the unpark for
-    /// a future call to `park`.
+    /// Unpark a thread's state. If it is blocked in `park`, wake it. Otherwise
+    /// (it is running, has yielded, or is blocked on something else) store the
+    /// unpark for a future call to `park`.
     fn set_unparked(&mut self) {
-        if self.is_blocked() || self.is_yield() {
+        if self.parked {
             self.set_runnable();
-        } else if self.is_runnable() {
-            self.state = State::Runnable { unparked: true }
+        } else if !self.is_terminated() {
+            self.unpark_token = true;
         }
     }
 }
@@ -504,12 +528,18 @@ impl Set {
         let mut out = format!("active={} sc={}", active, self.seq_cst_causality.verif_dump());
         for th in &self.threads {
             let st = match th.state {
-                State::Runnable { unparked: false } => "R",
-                State::Runnable { unparked: true } => "U",
+                State::Runnable => "R",
                 State::Blocked(..) => "B",
                 State::Yield => "Y",
                 State::Terminated => "T",
             };
+            // `u`: an unpark is stored; `p`: blocked in `park`
+            let st = format!(
+                "{}{}{}",
+                st,
+                if th.unpark_token { "u" } else { "" },
+                if th.parked { "p" } else { "" }
+            );
             let ly = match th.last_yield {
                 Some(v) => v.to_string(),
                 None => "-".to_string(),
